@@ -88,8 +88,25 @@ let bop_of_line (l : string) : M.bop =
   | "segments" -> M.BSegments
   | "build" -> M.BBuild
   | _ -> raise Bad_script
+(* `num <n>` / `num none` after `seg …`: MediaSegmentBuilder::number called again on the same segment builder — the last call
+   wins (C20_setters), so the line is folded into the `seg` line it follows *)
+let fold_num (lines : string list) : string list =
+  let is_pref p l = String.length l >= String.length p && String.sub l 0 (String.length p) = p in
+  let rec go acc = function
+    | [] -> List.rev acc
+    | l :: rest when is_pref "num " l ->
+        let a = String.sub l 4 (String.length l - 4) in
+        let a' = if a = "none" then "-" else a in
+        let rec repl = function
+          | [] -> raise Bad_script
+          | x :: xs when is_pref "seg " x -> ("seg " ^ a') :: xs
+          | x :: xs -> x :: repl xs in
+        go (repl acc) rest
+    | l :: rest -> go (l :: acc) rest in
+  go [] lines
 let run_script (script : string) : string =
   let lines = List.filter (fun l -> l <> "" && l <> "P none") (String.split_on_char '\n' script) in
+  let lines = (try fold_num lines with Bad_script -> ["badscript-line"]) in
   match (try Some (List.map bop_of_line lines) with Bad_script -> None) with
   | None -> "badscript"
   | Some ops -> string_of_str (M.run_builder ops)
